@@ -221,7 +221,20 @@ inline std::string snapStr(const Snap& s) {
 // chi-square/beta quantiles iterate to a relative step of 5e-7 and the property's companion check (C08) holds p(q(u)) = u to 1e-8 for all
 // families; 1e-5 is the figure the design fixes (two orders of headroom). Closed-form families: rounding only.
 inline double tolQ(Fam f) { return (f == F_EXPO || f == F_TEXP || f == F_UNIF) ? 1e-12 : 1e-5; }
+// absolute accuracy assumed for the parent's cumulative function and (per unit of scale) partial expectation: the series/continued fractions
+// of the gamma/beta/normal type stop at 1e-8 (C08 holds them to 1e-8 / 1e-12); closed forms: rounding only
+inline double accF(Fam f) { return (f == F_EXPO || f == F_TEXP || f == F_UNIF) ? 1e-13 : 4e-8; }
 
+// A bound or quantile is a double: it cannot be closer to the exact quantile than the double grid allows. Where the parent's cumulative
+// function is steep on that grid (beta with a shape below 1 next to 1, say) one step of the grid is a visible step in probability. The
+// slack of a computed abscissa x is the change of the parent's own cumulative function over x -+ 2 grid steps (clamped to the domain).
+inline double gridSlack(const ADD& d, double x, double lb, double ub) {
+  if (!std::isfinite(x)) return 0;
+  double a = std::nextafter(std::nextafter(x, -INF), -INF), b = std::nextafter(std::nextafter(x, INF), INF);
+  if (a < lb) a = lb; if (b > ub) b = ub;
+  double s = std::fabs(d.pProb(b) - d.pProb(a));
+  return std::isfinite(s) ? s : 0;
+}
 struct AuditOpt { size_t kreq; bool med; short scheme; Fam fam; };
 // c.fail plus a per-family break-down of the failing clause in the outcome histogram (the signature itself stays family-free)
 inline void failF(vf::Case& c, const std::string& sig, const std::string& fam, const std::string& detail) {
@@ -298,13 +311,16 @@ inline void auditPartition(const ADD& d, const AuditOpt& o, vf::Case& c, const s
   bool eqprobScheme = (s.scheme == 1) || (s.scheme == 3 && equalP && k > 1) || (s.scheme == 3 && k == 1);
   // equal-probability: the bounds are quantiles, F(b_i) = F(lb) + i M/k up to the quantile accuracy at both ends; equal-interval: the
   // probabilities are the very differences recomputed here (rounding only)
-  double tolP = ((eqprobScheme ? 2 * tolQ(o.fam) : 0) + 16 * EPS) / M;
-  if (tolP >= 0.5 / (double)k) c.tag("domain-mass-below-quantile-resolution");
+  double tolP0 = ((eqprobScheme ? 2 * tolQ(o.fam) : 0) + 16 * EPS) / M;
+  if (tolP0 >= 0.5 / (double)k) c.tag("domain-mass-below-quantile-resolution");
   else {
+    std::vector<double> sl(k + 1, 0.0);
+    if (eqprobScheme) for (size_t i = 1; i < k; ++i) sl[i] = gridSlack(d, s.b[i], s.lb, s.ub);
     for (size_t i = 0; i < k; ++i) {
       double want = (F[i + 1] - F[i]) / M;
+      double tolP = tolP0 + (sl[i] + sl[i + 1]) / M;
       if (!(std::fabs(s.p[i] - want) <= tolP)) {
-        fail("mass|class-probability-differs-from-parent-mass", where() + " | class " + str(i) + ": p=" + num(s.p[i]) + " parent mass/domain mass=" + num(want) + " (domain mass " + num(M) + ", tolerance " + num(tolP) + ")");
+        fail("mass|class-probability-differs-from-parent-mass" + dc, where() + " | class " + str(i) + ": p=" + num(s.p[i]) + " parent mass/domain mass=" + num(want) + " (domain mass " + num(M) + ", tolerance " + num(tolP) + ")");
         break;
       }
     }
@@ -318,9 +334,11 @@ inline void auditPartition(const ADD& d, const AuditOpt& o, vf::Case& c, const s
     double Emax = std::max(std::fabs(El), std::fabs(Eu));
     // the class values are differences of the parent's partial expectation divided by M/k: the sum telescopes; what remains is rounding
     // (cancellation in the differences), the value adjustments of at most (k+1) precision(), and 1e-9 relative slack
-    double tolM = 1e-9 * S + (double)(k + 1) * s.prec + 64 * EPS * (double)k * Emax / M;
+    // ... and the parent's own inaccuracy: a class value is (E(b_i+1)-E(b_i))/(M/k); when that leaves the class by the inaccuracy of E the
+    // library substitutes the class midpoint, so each class may shift the discrete mean by p_i * 2 accF scale / (M/k)
+    double tolM = 1e-9 * S + (double)(k + 1) * s.prec + 64 * EPS * (double)k * Emax / M + 2 * (double)k * accF(o.fam) * std::max(Emax, S) / M;
     if (!(std::fabs(got - want) <= tolM))
-      fail("mean|discrete-mean-differs-from-parent-mean-over-domain", where() + " | sum p_i v_i=" + num(got) + " parent (E(ub)-E(lb))/mass=" + num(want) + " tolerance " + num(tolM));
+      fail("mean|discrete-mean-differs-from-parent-mean-over-domain" + dc, where() + " | sum p_i v_i=" + num(got) + " parent (E(ub)-E(lb))/mass=" + num(want) + " tolerance " + num(tolM));
     else c.tag("mean-checked");
   }
 }
@@ -334,7 +352,10 @@ inline void auditLookup(const ADD& d, vf::Case& c, const std::string& ctx) {
   std::vector<double> xs;
   for (size_t i = 0; i <= k; ++i) xs.push_back(s.b[i]);
   for (size_t i = 0; i < k; ++i) { xs.push_back(s.v[i]); xs.push_back(s.b[i] / 2 + s.b[i + 1] / 2); }
-  bool f1 = false, f2 = false, f3 = false, f4 = false;
+  bool f1 = false, f3 = false;
+  // getCategoryIndex: the header does not say whether the index counts from 0 (as getCategory(i) does) or from 1; the function is judged
+  // as a whole: one of the two conventions must classify every test point correctly
+  std::string bad0, bad1; size_t npts = 0;
   for (double x : xs) {
     if (!std::isfinite(x)) continue;
     bool inDom = (s.slb ? x > s.lb : x >= s.lb) && (s.sub ? x < s.ub : x <= s.ub);
@@ -342,29 +363,31 @@ inline void auditLookup(const ADD& d, vf::Case& c, const std::string& ctx) {
     std::vector<size_t> ok;   // classes whose closed interval contains x
     for (size_t i = 0; i < k; ++i) if (s.b[i] <= x && x <= s.b[i + 1]) ok.push_back(i);
     if (ok.empty()) continue;
+    ++npts;
     auto in = [&](size_t j) { for (size_t q : ok) if (q == j) return true; return false; };
     std::string exp = "{"; for (size_t q : ok) exp += str(q) + " "; exp += "}";
-    // getValueCategory
-    if (!f1 && !f2) {
+    if (!f1) {
       try {
         double r = d.getValueCategory(x);
         size_t j = k; for (size_t i = 0; i < k; ++i) if (s.v[i] == r) j = i;
         if (j == k) { c.fail("lookup|getValueCategory|returns-a-value-that-is-no-class-value", ctx + " -> " + snapStr(s) + " | getValueCategory(" + num(x) + ")=" + num(r)); f1 = true; }
-        else if (!in(j)) { c.fail("lookup|getValueCategory|wrong-class", ctx + " -> " + snapStr(s) + " | getValueCategory(" + num(x) + ")=" + num(r) + " = class " + str(j) + ", but the value lies in class " + exp); f2 = true; }
+        else if (!in(j)) { c.fail("lookup|getValueCategory|wrong-class", ctx + " -> " + snapStr(s) + " | getValueCategory(" + num(x) + ")=" + num(r) + " = class " + str(j) + " (counting from 0), but the value lies in class " + exp); f1 = true; }
       } catch (Exception& e) { c.fail("lookup|getValueCategory|raises-inside-domain", ctx + " -> " + snapStr(s) + " | x=" + num(x) + ": " + e.what()); f1 = true; }
     }
-    // getCategoryIndex: an index as accepted by getCategory(i)/getProbability(i)
-    if (!f3 && !f4) {
+    if (!f3) {
       bool foreign = false; size_t j = 0;
       try { j = d.getCategoryIndex(x); }
       catch (Exception& e) { c.fail("lookup|getCategoryIndex|raises-inside-domain", ctx + " -> " + snapStr(s) + " | x=" + num(x) + ": " + e.what()); f3 = true; continue; }
       catch (std::exception&) { throw; }
       catch (...) { foreign = true; }
-      if (foreign) { c.fail("lookup|getCategoryIndex|throws-an-object-that-is-no-exception", ctx + " -> " + snapStr(s) + " | getCategoryIndex(" + num(x) + ") threw a non-exception object; the value lies in class " + exp); f3 = true; }
-      else if (!in(j)) { c.fail("lookup|getCategoryIndex|wrong-class", ctx + " -> " + snapStr(s) + " | getCategoryIndex(" + num(x) + ")=" + str(j) + " but the value lies in class " + exp + " (0-based, as taken by getCategory(i))"); f4 = true; }
+      if (foreign) { c.fail("lookup|getCategoryIndex|throws-an-object-that-is-no-exception", ctx + " -> " + snapStr(s) + " | getCategoryIndex(" + num(x) + ") threw an object that is not an exception; the value lies in class " + exp + " (counting from 0)"); f3 = true; continue; }
+      if (!in(j) && bad0.empty()) bad0 = "getCategoryIndex(" + num(x) + ")=" + str(j) + " but the value lies in class " + exp + " counting from 0";
+      if (!(j >= 1 && in(j - 1)) && bad1.empty()) bad1 = "getCategoryIndex(" + num(x) + ")=" + str(j) + " but the value lies in class " + exp + " counting from 0, i.e. one more counting from 1";
     }
   }
-  c.tag("lookup-checked");
+  if (!f3 && !bad0.empty() && !bad1.empty())
+    c.fail("lookup|getCategoryIndex|wrong-class", ctx + " -> " + snapStr(s) + " | no index convention fits: counting from 0: " + bad0 + "; counting from 1: " + bad1);
+  if (npts) c.tag("lookup-checked");
 }
 
 // the four cumulative class queries against partial sums of the class probabilities
@@ -424,7 +447,7 @@ inline void auditParent(const ADD& d, Fam f, vf::Case& c, const std::string& ctx
     }
     if (!(x[j] >= x[j - 1]) && j > 1) { failF(c, "parent|qProb-not-monotone", fam, ctx + " | qProb(" + num(u[j - 1]) + ")=" + num(x[j - 1]) + " > qProb(" + num(u[j]) + ")=" + num(x[j])); return; }
     double Fx = d.pProb(x[j]);
-    if (!(std::fabs(Fx - u[j]) <= tq)) { failF(c, "parent|pProb(qProb(u))-differs-from-u", fam, ctx + " | u=" + num(u[j]) + " qProb=" + num(x[j]) + " pProb(qProb)=" + num(Fx)); return; }
+    if (!(std::fabs(Fx - u[j]) <= tq + gridSlack(d, x[j], lb, ub))) { failF(c, "parent|pProb(qProb(u))-differs-from-u", fam, ctx + " | u=" + num(u[j]) + " qProb=" + num(x[j]) + " pProb(qProb)=" + num(Fx)); return; }
   }
   // second grid: linear in x between the 1/128 and 127/128 quantiles (interleaved with the first by sorting)
   std::vector<double> g(x.begin() + 1, x.end() - 1);
@@ -435,7 +458,7 @@ inline void auditParent(const ADD& d, Fam f, vf::Case& c, const std::string& ctx
   double Emax = 0, xmax = 0;
   for (size_t j = 0; j < g.size(); ++j) { Fg[j] = d.pProb(g[j]); Eg[j] = d.Expectation(g[j]); if (std::isfinite(Eg[j])) Emax = std::max(Emax, std::fabs(Eg[j])); }
   // accuracy of the parent's cumulative function in absolute terms (series truncated at 1e-8 for the gamma/beta type; rounding otherwise)
-  double aF = (f == F_EXPO || f == F_TEXP || f == F_UNIF) ? 1e-13 : 4e-8;
+  double aF = accF(f);
   for (size_t j = 0; j + 1 < g.size(); ++j) {
     double a = g[j], b = g[j + 1];
     if (!(Fg[j + 1] >= Fg[j] - 2 * aF) || !(Fg[j] >= -aF && Fg[j + 1] <= 1 + aF)) { failF(c, "parent|pProb-not-monotone-or-outside-[0,1]", fam, ctx + " | pProb(" + num(a) + ")=" + num(Fg[j]) + " pProb(" + num(b) + ")=" + num(Fg[j + 1])); return; }
